@@ -86,6 +86,7 @@ func newHist(cfg []string) *hist {
 		conns: map[int]*fconn{}, ffDone: map[int]bool{}, handles: map[int]net.PacketConn{}, keys: map[string][3]string{}, claimed: map[string]bool{}, parked: map[int]*parkPoint{}}
 	h.afterID = iceGoroutines()
 	h.lis = newFakeListener(h.laddrOK)
+	h.lis.failClose = h.rt == 3
 	h.logger = newParkLogger()
 	p := ice.TCPMuxParams{Listener: h.lis, Logger: h.logger, ReadBufferSize: 0,
 		FirstStunBindTimeout: time.Hour, AliveDurationForConnFromStun: time.Hour}
@@ -953,7 +954,7 @@ func (sv *supervisor) run(tag string, toks []string, nontrivial bool) error {
 }
 
 func runTCPMux(c *Ctx) error {
-	c.Rule = "one case = one history (8-45 operations) on a fresh TCPMuxDefault over a fake listener; non-trivial = the history attached at least one connection by ufrag AND contains at least one of: a rejected first frame, a removal/expiry/handle close, or MuxClose with a connection still open. Distinct = distinct case lines."
+	c.Rule = "one case = one history (8-45 operations) on a fresh TCPMuxDefault over a fake listener (in a quarter of the histories without real timers the listener reports an error from Close); non-trivial = the history attached at least one connection by ufrag AND contains at least one of: a rejected first frame, a removal/expiry/handle close, or MuxClose with a connection still open. Distinct = distinct case lines."
 	sv := &supervisor{c: c}
 	defer func() {
 		if sv.w != nil {
